@@ -526,6 +526,7 @@ inline void pin_to_cpu(int cpu) {
 struct dfs_stats {
   std::uint64_t executions = 0;
   bool complete = true;  // false if the execution cap was hit
+  unsigned complete_levels = 0;  // schedules with < complete_levels preemptions were all executed
 };
 
 inline unsigned event_cost(const event& e, int alt) {
@@ -534,44 +535,59 @@ inline unsigned event_cost(const event& e, int alt) {
 
 template <class Exec>
 bool dfs_explore(unsigned max_preemptions, std::uint64_t max_execs, Exec&& execute, dfs_stats& ds) {
+  // Level order by number of preemptions: every schedule with c preemptions
+  // is executed before any schedule with c+1, so an execution cap cuts off
+  // the highest level only (ds.complete_level says which levels are complete).
   struct frame {
     override_list ov;
     std::uint64_t first_free;
     unsigned cost;
   };
-  std::vector<frame> stack;
-  stack.push_back({{}, 0, 0});
+  std::vector<std::vector<frame>> level(max_preemptions + 1);
+  level[0].push_back({{}, 0, 0});
   auto& S = scheduler::get();
-  while (!stack.empty()) {
-    frame f = std::move(stack.back());
-    stack.pop_back();
-    if (ds.executions >= max_execs) {
-      ds.complete = false;
-      return true;
-    }
-    replay_strategy rs(f.ov);
-    ++ds.executions;
-    if (!execute(rs, f.ov)) return false;
-    const std::vector<event> tr = S.trace();  // copy: the next execution overwrites it
-    // children, pushed in reverse so that early steps are explored first
-    std::vector<frame> kids;
-    for (const auto& e : tr) {
-      if (e.step < f.first_free) continue;
-      for (int alt = 0; alt < MAX_THREADS; ++alt) {
-        if (!((e.runnable >> alt) & 1U) || alt == e.chosen) continue;
-        const unsigned c = f.cost + event_cost(e, alt);
-        if (c > max_preemptions) continue;
-        frame k;
-        k.ov = f.ov;
-        // an override equal to the default needs no entry, but recording it
-        // is harmless and keeps the replay explicit
-        k.ov.emplace_back(e.step, alt);
-        k.first_free = e.step + 1;
-        k.cost = c;
-        kids.push_back(std::move(k));
+  std::uint64_t queued = 1;
+  unsigned min_cut = max_preemptions + 1;
+  for (unsigned c = 0; c <= max_preemptions; ++c) {
+    auto& stack = level[c];
+    while (!stack.empty()) {
+      frame f = std::move(stack.back());
+      stack.pop_back();
+      if (ds.executions >= max_execs) {
+        ds.complete = false;
+        ds.complete_levels = std::min(c, min_cut);
+        return true;
       }
+      replay_strategy rs(f.ov);
+      ++ds.executions;
+      if (!execute(rs, f.ov)) return false;
+      const std::vector<event> tr = S.trace();  // copy: the next execution overwrites it
+      std::vector<frame> kids;
+      for (const auto& e : tr) {
+        if (e.step < f.first_free) continue;
+        for (int alt = 0; alt < MAX_THREADS; ++alt) {
+          if (!((e.runnable >> alt) & 1U) || alt == e.chosen) continue;
+          const unsigned cc = f.cost + event_cost(e, alt);
+          if (cc > max_preemptions) continue;
+          if (queued >= max_execs + 64) {  // no point in queueing what the cap will cut
+            ds.complete = false;
+            if (cc < min_cut) min_cut = cc;
+            continue;
+          }
+          frame k;
+          k.ov = f.ov;
+          k.ov.emplace_back(e.step, alt);
+          k.first_free = e.step + 1;
+          k.cost = cc;
+          ++queued;
+          if (cc == c) kids.push_back(std::move(k));
+          else level[cc].push_back(std::move(k));
+        }
+      }
+      // same-level children (free alternatives): early steps first
+      for (auto it = kids.rbegin(); it != kids.rend(); ++it) stack.push_back(std::move(*it));
     }
-    for (auto it = kids.rbegin(); it != kids.rend(); ++it) stack.push_back(std::move(*it));
+    ds.complete_levels = std::min(c + 1, min_cut);
   }
   return true;
 }
